@@ -9,13 +9,14 @@ drained tail calls stop(7) - the manager is not running any more, so none of the
 Every node is an event whose handler fires its kids; node 0 is fired by nobody: its handler IS the `started` handler.
 "after": the stop action runs after the kids were fired (always so for the raising kinds, whose handler ends there).
 """
+import os
 import threading
 
 from hypothesis import strategies as st
 
 from circuits import BaseComponent, Event
 from circuits.core.handlers import handler as H
-from vlib import driver
+from vlib import driver, sched
 from vlib.runner import Prop, Result
 
 
@@ -75,6 +76,130 @@ def _tree(depth):
     return s
 
 
+SCHED_FILES = ('circuits/core/manager.py', 'circuits/core/events.py', 'circuits/core/helpers.py', 'circuits/core/pollers.py')
+
+
+class spre(Event):
+    pass
+
+
+def _sched_run(spec, preempt, record_owner=False):
+    """{"sched": 1, "idle": fallback|Select|Poll|EPoll, "code": None|int, "pre": n, "preempt": [[step, thread]]}:
+    the real run() in a loop thread and a foreign thread that calls stop(code) once `started` has been dispatched, both under
+    the cooperative scheduler of vlib/sched.py (hand-over before every source line of the four core files)."""
+    import circuits.core.helpers as _helpers
+    import circuits.core.manager as _manager
+    import circuits.core.pollers as _pollers
+    log = []
+    state = {'returned': False, 'exit': 'no-return'}
+    s = sched.Sched(preempt, SCHED_FILES)
+    if record_owner:
+        s.owners = {}
+        orig = s.yield_point
+
+        def yp(where):
+            name = s.me()
+            if name in s.threads:
+                s.owners[s.steps + 1] = name
+            return orig(where)
+        s.yield_point = yp
+    saved = (_manager.RLock, _helpers.Event, _pollers.select)
+    sel = sched.SelDouble(s)
+    _manager.RLock = lambda: sched.DLock(s)
+    _helpers.Event = lambda: sched.DEvent(s)
+    _pollers.select = sel
+    poller = None
+    try:
+        gate = sched.DEvent(s)
+
+        class App(BaseComponent):
+            @H('started')
+            def _started(self, *a):
+                log.append('started')
+                for i in range(spec.get('pre', 0)):
+                    self.fire(spre(i))
+                gate.set()
+
+            @H('spre')
+            def _pre(self, i):
+                log.append(('pre', i))
+
+            @H('stopped')
+            def _stopped(self, *a):
+                log.append('stopped')
+
+        app = App()
+        if spec['idle'] != 'fallback':
+            poller = getattr(_pollers, spec['idle'])().register(app)
+
+        def loop():
+            try:
+                app.run()
+                state['exit'] = None
+            except SystemExit as e:
+                state['exit'] = ('SystemExit', e.code)
+            log.append('run-returned')
+
+        def stopper():
+            gate.wait()
+            app.stop(spec.get('code'))
+            state['returned'] = True
+
+        with driver.captured_stderr() as err:
+            s.spawn('loop', loop)
+            s.spawn('stopper', stopper)
+            s.run('loop')
+        s.errout = err.getvalue()
+        s.leftover = len(app._queue)
+    finally:
+        _manager.RLock, _helpers.Event, _pollers.select = saved
+        if poller is not None:
+            for fd in (poller._ctrl_recv, poller._ctrl_send):
+                try:
+                    os.close(fd)
+                except (OSError, TypeError):
+                    pass
+        sel.close_all()
+    return s, log, state
+
+
+def _sched_judge(spec, s, log, state):
+    def bad(clause, msg):
+        return Result(False, clause, '%s | idle=%s code=%r switches=%r log=%r' % (msg, spec['idle'], spec.get('code'), s.trace[:4], log[-6:]), True, ['scheduled-foreign-stop'])
+    if s.violation is not None:
+        kind = s.violation[0]
+        if kind == 'harness-timeout':
+            return Result(True, inconclusive=True, classes=['inconclusive:wall-cap'])
+        if kind == 'stuck':
+            return bad('foreign-stop-stuck', 'stop() from another thread %s but run() never returns: %r' % (
+                'returned' if state['returned'] else 'did not return', s.violation[1]))
+        return bad(kind, str(s.violation[1]))
+    for name, stt in s.threads.items():
+        if stt['exc'] == 'step-budget':
+            return bad('live-lock', 'thread %s exceeded the step budget (%d steps)' % (name, s.steps))
+        if stt['exc'] is not None:
+            return bad('exception-escaped', 'thread %s ended with %r' % (name, stt['exc']))
+    if log.count('started') != 1:
+        return bad('started-count', '`started` dispatched %d times' % log.count('started'))
+    if log.count('stopped') != 1:
+        return bad('stopped-count', '`stopped` dispatched %d times' % log.count('stopped'))
+    if log.count('run-returned') != 1 or log.index('stopped') > log.index('run-returned'):
+        return bad('returned-before-stopped', 'run() returned before `stopped` was dispatched')
+    pre = [x[1] for x in log if isinstance(x, tuple)]
+    if pre != list(range(spec.get('pre', 0))):
+        return bad('not-drained', 'events fired by the started handler dispatched as %r' % (pre,))
+    if s.leftover:
+        return bad('not-drained', '%d events left in the queue after run() returned' % s.leftover)
+    code = spec.get('code')
+    want = None if code is None else ('SystemExit', code)
+    if state['exit'] != want:
+        return bad('exit-code', 'run() ended with %r, expected %r' % (state['exit'], want))
+    if 'ERROR' in s.errout or 'Traceback' in s.errout:
+        return bad('stderr', s.errout[-300:])
+    return Result(True, nontrivial=bool(s.trace), classes=['scheduled-foreign-stop', 'idle:' + spec['idle']] + (['virtual-timeout-used'] if s.timeouts else []))
+
+
+
 class C08(Prop):
     id = 'C08'
     rule = ('programs: `started` handler fires a tree of events (fan-out<=3, depth<=3); one stop action per cycle placed in the '
@@ -90,11 +215,31 @@ class C08(Prop):
     budget = {'quick': (2500, 4), 'thorough': (100000, 16)}
     shrink_lists = {'cycles': 1, 'kids': 0, 'idle_stops': 0}
 
+    enum_procs = 16
+
     def setup(self):
         driver.quiet_process()
 
     def normalize(self, spec):
-        return _number(spec)
+        return spec if 'sched' in spec else _number(spec)
+
+    def enumerate(self, tier):
+        """stop() from a second thread at EVERY point of the loop thread's progress and with the loop thread cutting in at
+        every line of stop(): all single-preemption schedules of each scenario (thorough: more scenarios)."""
+        self.setup()
+        scen = [{'idle': 'fallback', 'code': None, 'pre': 0}, {'idle': 'fallback', 'code': 3, 'pre': 2}, {'idle': 'Select', 'code': None, 'pre': 1}]
+        if tier == 'thorough':
+            scen += [{'idle': 'Poll', 'code': 3, 'pre': 0}, {'idle': 'EPoll', 'code': None, 'pre': 2}, {'idle': 'Select', 'code': 0, 'pre': 3}]
+        out = []
+        for sc in scen:
+            base = dict(sc, sched=1)
+            s0, _, _ = _sched_run(base, {}, record_owner=True)
+            out.append(dict(base, preempt=[]))
+            for a in range(1, s0.steps + 1):
+                for tgt in ('loop', 'stopper'):
+                    if tgt != s0.owners.get(a):
+                        out.append(dict(base, preempt=[[a, tgt]]))
+        return out
 
     def strategy(self, tier):
         stop = st.fixed_dictionaries({
@@ -115,6 +260,9 @@ class C08(Prop):
 
     # ------------------------------------------------------------------
     def execute(self, spec):
+        if 'sched' in spec:
+            sc, log, state = _sched_run(spec, {int(a): t for a, t in spec['preempt']})
+            return _sched_judge(spec, sc, log, state)
         log = []          # ('disp', name/id) , ('fired', id)
         cur = {}
 
